@@ -5,7 +5,7 @@ from ..layoutspec import Layout, describe as describe_layout, NHEAD, STRIDE, V
 
 ID = 'C03'
 EXPLANATION = ('Template t_layout (one type, n fields; kinds: scalar by value, *const, *mut, [T; c], unknown<c>, '
-               '[*const T; c]; optional #[address] per field; optional #[size], #[align], #[packed]) is executed '
+               '[*const T; c]; optional #[address] per field; optional #[size], #[align], #[packed], the latter written before or after the other two) is executed '
                'symbolically over pyxis\'s MIR; on every accepted leaf the solver must refute "not realisable", on every '
                'rejected leaf it must refute "realisable" (realisable = the acceptance condition of the property, written '
                'in SMT over the description\'s parameters only); panicking / non-terminating leaves are violations.')
@@ -23,9 +23,10 @@ def bounds(tier):
 
 def base_assume(a, n, ps, vmax, kinds, elem='ext', named=None, packed=None, min1=True):
     A = [a[0] == ps, a[1] == n]
-    for i in (2, 4, 6): A.append(z3.ULE(a[i], 1))
+    for i in (2, 4): A.append(z3.ULE(a[i], 1))
+    A.append(z3.ULE(a[6], 2))          # 2: `packed` written before size / align (attribute order must not matter)
     A += [z3.ULT(a[3], vmax), z3.ULE(a[5], 64)]
-    if packed is not None: A.append(a[6] == (1 if packed else 0))
+    if packed is not None: A.append((a[6] != 0) if packed else (a[6] == 0))
     for i in range(n):
         b = NHEAD + STRIDE * i
         A.append(z3.Or(*[a[b] == k for k in kinds]))
